@@ -37,7 +37,9 @@ def make_fn(name, r, s, dtype):
 
 FUNCS = ["linear", "cubic", "quadratic", "exp", "tanh", "jump", "sin"]
 # (a, b, r): root interior / at an end / absent; both orders; one bracket beyond |x| = 4
-BRACKETS = [(-1.0, 2.0, 0.3), (2.0, -1.0, 0.3), (0.3, 2.0, 0.3), (-1.0, 0.3, 0.3), (1.0, 2.0, 0.3), (2.0, 1.0, 0.3), (5.0, 9.0, 7.3), (9.0, 5.0, 7.3), (-9.0, -5.0, -7.3), (0.25, 0.375, 0.3)]
+BRACKETS = [(-1.0, 2.0, 0.3), (2.0, -1.0, 0.3), (0.3, 2.0, 0.3), (-1.0, 0.3, 0.3), (1.0, 2.0, 0.3), (2.0, 1.0, 0.3), (5.0, 9.0, 7.3), (9.0, 5.0, 7.3), (-9.0, -5.0, -7.3), (0.25, 0.375, 0.3),
+            # wide brackets whose ends differ by orders of magnitude from the root (relative tolerances must follow the iterate, not the initial end)
+            (0.0, 4096.0, 0.3), (4096.0, 0.0, 0.3), (-1024.0, 1.0, 0.3), (0.0, 4096.0, 3000.7), (4096.0, 0.0, 3000.7)]
 
 
 def eff_tol(tol, dtype, D):
@@ -153,8 +155,8 @@ def run_case(case):
 
 def run(ctx):
     scales = [1e-6, 1e-3, 1.0, 1e3, 1e6, 1e9] if ctx.quick else [10.0 ** e for e in range(-6, 10)]
-    ctx.rule = ("scalar: 7 functions (linear, flat cubic root, quadratic, exp, steep tanh, jump, multi-root sine) x 10 brackets (both orders, root interior / exactly at an end / absent, "
-                "|x| > 4, narrow) x %d scales x tol in {None, 1e-8, 1e-3} x 3 dtypes; vector: every window of length 1..16 (two strides) over the same enumeration, compared component-wise "
+    ctx.rule = ("scalar: 7 functions (linear, flat cubic root, quadratic, exp, steep tanh, jump, multi-root sine) x 15 brackets (both orders, root interior / exactly at an end / absent, "
+                "|x| > 4, narrow, wide with ends orders of magnitude away from the root) x %d scales x tol in {None, 1e-8, 1e-3} x 3 dtypes; vector: every window of length 1..16 (two strides) over the same enumeration, compared component-wise "
                 "with the scalar solver; distinct = distinct (solver, function, dtype, success, large-scale, bracket-order) classes" % len(scales))
     ctx.assumptions += ["'within the tolerance' = max(tol, 4 ulp) relative to max(1, |x|); tol below 4*eps is raised to 4*eps as documented in the solvers",
                         "for multi-root (sine) and flat (cubic) cases the vector and scalar solvers may legitimately stop at different certified points; flags must still agree"]
